@@ -21,7 +21,7 @@ VARIANTS = {
     "O0w": ["-O0", "-fwrapv", "-fno-strict-aliasing"],
 }
 # default language mode of gcc; the corpus stage of checks/c20.py passes -std=gnu2x to separate the
-# `(...)` prototypes (finding C20:variadic-proto-needs-c23) from other compile errors
+# `(...)` prototypes (finding C20:variadic-proto-without-named-param) from other compile errors
 STD = os.environ.get("C20_STD", "").split()
 
 
